@@ -4,9 +4,9 @@ from ..scen.ops import OPS, VIEW_OPS, INPLACE
 
 
 STRUCTS_TT = [{'N': [3], 'R': [1, 1]}, {'N': [2, 3], 'R': [1, 2, 1], 'R2': [1, 3, 1]}, {'N': [2, 1, 3], 'R': [1, 2, 2, 1], 'R2': [1, 1, 2, 1]},
-              {'N': [1, 2], 'R': [1, 2, 1], 'R2': [1, 1, 1]}]
+              {'N': [1, 2], 'R': [1, 2, 1], 'R2': [1, 1, 1]}, {'N': [2, 3], 'R': [1, 1, 1], 'R2': [1, 1, 1]}, {'N': [2, 1, 2], 'R': [1, 1, 1, 1], 'R2': [1, 1, 2, 1]}]
 STRUCTS_TTM = [{'N': [3], 'M': [2], 'R': [1, 1]}, {'N': [2, 3], 'M': [3, 1], 'R': [1, 2, 1], 'R2': [1, 1, 1]},
-               {'N': [1, 2, 2], 'M': [1, 1, 2], 'R': [1, 2, 2, 1], 'R2': [1, 2, 1, 1]}]
+               {'N': [1, 2, 2], 'M': [1, 1, 2], 'R': [1, 2, 2, 1], 'R2': [1, 2, 1, 1]}, {'N': [2, 2], 'M': [1, 2], 'R': [1, 1, 1], 'R2': [1, 1, 1]}]
 
 
 def cases(tier, seed):
